@@ -1291,6 +1291,9 @@ class Summarizer:
         dest = self.resolve_place(st, fr, term['dest'])
         dest_ty = self.place_type(fr, term['dest'])
         target = term['target']
+        if callee is None and isinstance(term.get('func'), dict) and 'fn' in (term['func'].get('const') or {}) and fr.def_id < 0:
+            # initialiser of a constant (no resolution records there): a direct call of a named function, modelled or not
+            callee = {'path': term['func']['const']['fn']}
         if callee is None:
             raise Unsupported('call without callee record at %s' % self.where(fr, term))
         if callee.get('rkind') == 'indirect' and 'func' in term:
